@@ -28,7 +28,9 @@ use std::{
     time::{Duration, Instant},
 };
 
+use bitvec::{order::{Lsb0, Msb0}, vec::BitVec};
 use dashmap::{DashMap, DashSet};
+use smallvec::SmallVec;
 use more::{Big, EnSkip, GenTupSkip, HPair, NamedSkipEnds, Pair, TupSkipMid, TupSkipMixed};
 
 use qbice::{Decode, Encode, StableHash};
@@ -214,6 +216,7 @@ type HS<K> = HashSet<K, SeededState>;
 type DM<K, W> = DashMap<K, W, SeededState>;
 type DS<K> = DashSet<K, SeededState>;
 
+// Append only: replay files name types by their index in this list.
 c12_types!(
     u8, u16, u32, u64, u128, usize, i8, i16, i32, i64, i128, isize, bool, char, f32, f64, (), String,
     Vec<u8>, Vec<u64>, Vec<String>, Vec<Vec<u8>>, Vec<Option<String>>, Vec<(u8, String)>, Vec<Vec<Vec<u16>>>,
@@ -237,6 +240,9 @@ c12_types!(
     TupSkipMid, TupSkipMixed, GenTupSkip<String>, GenTupSkip<u8>, NamedSkipEnds, EnSkip, Big, Vec<Big>, Vec<EnSkip>, (TupSkipMid, u8),
     Option<TupSkipMixed>, BTreeMap<u8, EnSkip>,
     Pair<String>, Pair<Vec<u8>>, Pair<PathBuf>, Pair<Box<str>>, Pair<VecDeque<u8>>, Pair<Vec<String>>,
+    // optional features of the serializer
+    SmallVec<[u8; 4]>, SmallVec<[String; 2]>, Vec<SmallVec<[u16; 1]>>,
+    BitVec<u8, Lsb0>, BitVec<u8, Msb0>, BitVec<usize, Lsb0>, BitVec<u32, Msb0>, (BitVec<usize, Lsb0>, u8),
 );
 
 #[derive(Clone, Debug, Serialize, Deserialize)]
@@ -615,6 +621,40 @@ impl<K: Rebuild + Eq + std::hash::Hash> Rebuild for DS<K> {
 }
 impl<T: Rebuild + more::Cat> Rebuild for Pair<T> { fn rebuild(&self, r: &mut Rng) -> Self { Pair(self.0.rebuild(r), self.1.rebuild(r)) } }
 impl<T: Rebuild + more::Cat> Rebuild for HPair<T> { fn rebuild(&self, r: &mut Rng) -> Self { HPair(self.0.rebuild(r), self.1.rebuild(r)) } }
+impl<A: smallvec::Array + 'static> Rebuild for SmallVec<A>
+where
+    A::Item: Rebuild,
+{
+    fn rebuild(&self, r: &mut Rng) -> Self {
+        // spilled to the heap vs. inline
+        let mut v: SmallVec<A> = SmallVec::with_capacity(if r.chance(1, 2) { 0 } else { self.len() + 9 });
+        for x in self {
+            v.push(x.rebuild(r));
+        }
+        v
+    }
+}
+impl<T: bitvec::store::BitStore + 'static, O: bitvec::order::BitOrder + 'static> Rebuild for BitVec<T, O> {
+    fn rebuild(&self, r: &mut Rng) -> Self {
+        // other dead bits in the last element, another capacity
+        let mut b: BitVec<T, O> = BitVec::with_capacity(self.len() + r.usize(70));
+        for bit in self.iter().by_vals() {
+            b.push(bit);
+        }
+        let extra = r.usize(9);
+        for _ in 0..extra {
+            b.push(r.chance(1, 2));
+        }
+        b.truncate(self.len());
+        b
+    }
+}
+impl Rebuild for flexstr::SharedStr {
+    fn rebuild(&self, r: &mut Rng) -> Self {
+        // inline / heap / static storage
+        if r.chance(1, 2) { flexstr::SharedStr::from(self.as_str()) } else { flexstr::SharedStr::from_ref(&self.as_str().to_string()) }
+    }
+}
 impl Rebuild for Cow<'static, String> {
     fn rebuild(&self, r: &mut Rng) -> Self {
         // owned vs. borrowed storage
@@ -675,6 +715,7 @@ macro_rules! c13_types {
     };
 }
 
+// Append only: replay files name types by their index in this list.
 c13_types!(
     (u8, false, c13_one), (u64, false, c13_one), (i128, false, c13_one), (bool, false, c13_one), (char, false, c13_one), (f64, false, c13_one), (String, false, c13_one), ((), false, c13_one),
     (Vec<u8>, false, c13_one), (Vec<String>, false, c13_one), (Vec<Vec<u8>>, false, c13_one), (Vec<Option<String>>, false, c13_one), (Vec<(String, String)>, false, c13_one),
@@ -699,6 +740,8 @@ c13_types!(
     ((BinaryHeap<u8>, u8), true, c13_hash), (OsString, false, c13_hash), (CString, false, c13_hash), (HPair<OsString>, false, c13_hash),
     (HPair<CString>, false, c13_hash), (Vec<OsString>, false, c13_hash), (Cow<'static, String>, false, c13_hash),
     (HPair<PathBuf>, false, c13_hash),
+    (SmallVec<[u8; 4]>, false, c13_hash), (HPair<flexstr::SharedStr>, false, c13_hash), (flexstr::SharedStr, false, c13_hash),
+    (BitVec<u8, Lsb0>, false, c13_hash), (BitVec<usize, Msb0>, false, c13_hash),
 );
 
 #[derive(Clone, Debug, Serialize, Deserialize)]
